@@ -52,7 +52,7 @@ type AppSpec struct {
 type Action struct {
 	At      string `json:"at"`    // apphash | offer | apply | after-apply
 	Call    int    `json:"call"`  // call number of that kind; -1 = every call of that kind except the first
-	Kind    string `json:"kind"`  // push | push-async (hold does not wait for the delivery) | stop | readv | flush | reconnect (leave if still connected, come back under the same node key, advertise Snap)
+	Kind    string `json:"kind"`  // race (Count peers deliver chunk cur+Rel at the same moment, each with its own bytes, by concurrent Reactor.ReceiveEnvelope calls; Rel = 99: one such batch per index) | push | push-async (hold does not wait for the delivery) | stop | readv | flush | reconnect (leave if still connected, come back under the same node key, advertise Snap)
 	Peer    int    `json:"peer"`  // liar index; -1 = sender of the chunk of this call, -2 = sender most recently rejected by the app, -3 = some other honest connected peer
 	Rel     int    `json:"rel"`   // push: index = current index + rel (mod chunks)
 	Bytes   string `json:"bytes"` // push: right | wrong
@@ -77,11 +77,15 @@ type Scenario struct {
 	App        AppSpec           `json:"app"`
 	Actions    []Action          `json:"actions"`
 	SPFaults   map[string]string `json:"sp_faults"` // "AppHash#k" | "State#k" | "Commit#k" -> err | nowitness
+	// race family: size of every genuine / forged chunk body (0 = a few dozen bytes), and whether the first
+	// request for a chunk stays unanswered so that the re-sent request is answered by two peers at once
+	ChunkBody int  `json:"chunk_body_bytes,omitempty"`
+	RaceRereq bool `json:"race_on_rerequest,omitempty"`
 }
 
 // content is the true content of chunk i of the (only) genuine snapshot at
 // (height, format) of a scenario.
-func content(sub int64, h uint64, f uint32, i uint32) []byte {
+func content(sub int64, size int, h uint64, f uint32, i uint32) []byte {
 	var b [32]byte
 	binary.LittleEndian.PutUint64(b[0:], uint64(sub))
 	binary.LittleEndian.PutUint64(b[8:], h)
@@ -91,13 +95,22 @@ func content(sub int64, h uint64, f uint32, i uint32) []byte {
 	d := sha256.Sum256(b[:])
 	n := 6 + int(d[31])%24
 	out := append([]byte(fmt.Sprintf("T%d/%d/%d:", h, f, i)), d[:n]...)
+	if size > len(out) {
+		// large bodies (race family): filled up with a byte that no forged chunk uses
+		body := make([]byte, size)
+		copy(body, out)
+		for k := len(out); k < size; k++ {
+			body[k] = 0xA0 + byte(i%16)
+		}
+		return body
+	}
 	return out
 }
 
-func contentHash(sub int64, h uint64, f uint32, n uint32) []byte {
+func contentHash(sub int64, size int, h uint64, f uint32, n uint32) []byte {
 	hh := sha256.New()
 	for i := uint32(0); i < n; i++ {
-		hh.Write(content(sub, h, f, i))
+		hh.Write(content(sub, size, h, f, i))
 	}
 	return hh.Sum(nil)
 }
@@ -111,7 +124,7 @@ func has(ss []string, s string) bool {
 	return false
 }
 
-var recipeNames = []string{"plain", "s18", "dup", "blacklist", "infolie", "retrysnap", "vanish", "spfault", "many", "noise", "fooled", "comeback", "orphan"}
+var recipeNames = []string{"plain", "s18", "dup", "blacklist", "infolie", "retrysnap", "vanish", "spfault", "many", "noise", "fooled", "comeback", "orphan", "race"}
 
 // genScenario draws scenario number idx.
 func genScenario(r *rand.Rand, verifSeed, sub int64, stream string, idx int) *Scenario {
@@ -129,6 +142,9 @@ func genScenario(r *rand.Rand, verifSeed, sub int64, stream string, idx int) *Sc
 	if recipeNames[idx%len(recipeNames)] == "orphan" {
 		nrec = 1 // a fixed cast of peers: kept free of other recipes when it is the primary one
 	}
+	if recipeNames[idx%len(recipeNames)] == "race" {
+		s.ChunkBody = []int{256 << 10, 1 << 20, 1 << 20, 2 << 20, 4 << 20}[r.Intn(5)]
+	}
 	s.Recipes = append(s.Recipes, recipeNames[idx%len(recipeNames)])
 	for len(s.Recipes) < nrec {
 		x := recipeNames[r.Intn(len(recipeNames))]
@@ -144,7 +160,7 @@ func genScenario(r *rand.Rand, verifSeed, sub int64, stream string, idx int) *Sc
 	n1 := uint32(2 + r.Intn(5))
 	addTrue := func(h uint64, f uint32, n uint32) int {
 		s.Catalog = append(s.Catalog, SnapSpec{Height: h, Format: f, Chunks: n, Kind: "true",
-			Hash: hexs(contentHash(sub, h, f, n)), Meta: hexs([]byte(fmt.Sprintf("m%d", r.Intn(100))))})
+			Hash: hexs(contentHash(sub, s.ChunkBody, h, f, n)), Meta: hexs([]byte(fmt.Sprintf("m%d", r.Intn(100))))})
 		return len(s.Catalog) - 1
 	}
 	main := addTrue(s1, 1, n1)
@@ -153,10 +169,13 @@ func genScenario(r *rand.Rand, verifSeed, sub int64, stream string, idx int) *Sc
 		second = addTrue(3+uint64(r.Intn(int(s1)-3)), uint32(1+r.Intn(2)), uint32(1+r.Intn(4)))
 	}
 	npeers := 1 + r.Intn(4)
-	if rc("s18") || rc("dup") || rc("vanish") || rc("comeback") {
+	if rc("s18") || rc("dup") || rc("vanish") || rc("comeback") || rc("race") {
 		if npeers < 2 {
 			npeers = 2
 		}
+	}
+	if rc("race") && npeers < 3 {
+		npeers = 3 + r.Intn(2)
 	}
 	for p := 0; p < npeers; p++ {
 		ps := PeerSpec{Default: "honest"}
@@ -416,6 +435,42 @@ func genScenario(r *rand.Rand, verifSeed, sub int64, stream string, idx int) *Sc
 				s.Actions = append(s.Actions, Action{At: "apphash", Call: -1, Kind: "readv", Peer: fresh, Snap: main})
 			}
 		}
+	}
+	if rc("race") {
+		// the same chunk index is delivered by several peers at the same moment (one goroutine per
+		// peer, released together), each with its own bytes: one honest, the others forged
+		s.App.SmartReject = r.Intn(2) == 0 // else forged chunks are only refetched, and the races go on
+		s.App.BadLimit = 30
+		variant := r.Intn(3)
+		if s.Recipes[0] == "race" {
+			variant = (idx / len(recipeNames)) % 3
+		}
+		k := 2 + r.Intn(2)
+		switch variant {
+		case 0: // unsolicited, before anything was fetched: one batch per index while the offer is held
+			s.Actions = append(s.Actions, Action{At: "offer", Call: 0, Kind: "race", Rel: 99, Count: k})
+		case 1: // the first request for a chunk stays unanswered; the re-sent request is answered by two peers at once
+			s.RaceRereq = true
+			if s.ReqTimeout > 400 {
+				s.ReqTimeout = 400
+			}
+		case 2: // half of the indexes as in 0; every later refetch goes through the re-request race
+			s.Actions = append(s.Actions, Action{At: "offer", Call: 0, Kind: "race", Rel: 98, Count: k})
+			s.RaceRereq = true
+			if s.ReqTimeout > 400 {
+				s.ReqTimeout = 400
+			}
+		}
+		// an applied chunk is retried while other peers deliver other bytes for it at the same moment
+		for t := 0; t < 1+r.Intn(2); t++ {
+			call := r.Intn(int(n1) + 2)
+			if _, ok := s.App.ApplyScript[call]; !ok {
+				s.App.ApplyScript[call] = ApplyOverride{Result: "RETRY"}
+				s.Actions = append(s.Actions, Action{At: "apply", Call: call, Kind: "race", Rel: 0, Count: k})
+			}
+		}
+		// ... and a chunk that is present but not yet applied
+		s.Actions = append(s.Actions, Action{At: "apply", Call: r.Intn(int(n1)), Kind: "race", Rel: 1, Count: k})
 	}
 	if rc("spfault") {
 		m := []string{"AppHash", "State", "Commit"}[r.Intn(3)]
